@@ -115,6 +115,12 @@ def run_case(case):
     dt = case["sign"] * cells * dz / vref
     layout = Layout('flux_surface', [1, 1], [0, 3, 1, 2], eta, [0, 0])
     op = adv.FluxSurfaceAdvection(eta, [bs[1], bs[2]], layout, dt, c)
+    # a second live operator on a LARGER grid, built and used after `op` was built: must not influence `op`
+    c2 = pg.make_constants(rMin=c.rMin, rMax=c.rMax, zMin=0.0, zMax=zMax, vMax=vMax, vMin=-vMax, R0=R0, npts=[nr, nth + 3, nz + 5, nv],
+                           splineDegrees=[min(3, nr - 1), deg, 3, min(3, nv - 1)], iota_fn=_iota_fn(case["iota"]))
+    eta2, bs2, _b2 = pg.make_space(spl, c2.npts, c2.splineDegrees, pg.std_domain(c2))
+    decoy = adv.FluxSurfaceAdvection(eta2, [bs2[1], bs2[2]], Layout('flux_surface', [1, 1], [0, 3, 1, 2], eta2, [0, 0]), -0.7 * dt, c2)
+    decoy.step(rs.standard_normal((nth + 3, nz + 5)), nv - 1, nr - 1)
     thetaref = pg.PeriodicSplineRef(bs[1], eta[1])
     if thetaref.kappa > 1e8:
         return result(SKIP, what="theta collocation ill conditioned")
